@@ -571,7 +571,13 @@ def check (ps : PState) (evLine : String) (obs : List String) (fault : Option St
     own := own.filter fun e => (d.live e.1).isSome
     return (own, fs)
   let isTakeover := typ == "recv" && kind == "mod" && lookD m "node" "-" != "-" && !isDup && (prev.live seid).isSome
-  let taken' := if isTakeover then seid :: ps.taken.filter (· != seid) else ps.taken
+  -- sessions whose node object has surely not been renamed by somebody else's takeover: a takeover (the mechanism renames
+  -- the whole node object — known finding takeoverNode, C05) leaves only the session taken over; sessions established
+  -- later are added again
+  let estUps : List Nat := if typ == "recv" && kind == "est" && !isDup then
+      (sends.filter fun s => s.kind == "estrsp" && lookD s.f "cause" "" == "1").map fun s =>
+        hexD ((splitOn1 (lookD s.f "fseid" "-") '/').headD "0") else []
+  let taken' := if isTakeover then [seid] else estUps ++ ps.taken.filter (fun u => !estUps.contains u)
   let assocPeer' := if typ == "recv" && kind == "assoc" && !isDup && lookD m "node" "-" != "-" &&
       (sends.any fun s => s.kind == "assocrsp" && lookD s.f "cause" "" == "1")
     then (lookD m "node" "-", peer) :: ps.assocPeer.filter (·.1 != lookD m "node" "-") else ps.assocPeer
@@ -585,7 +591,7 @@ def check (ps : PState) (evLine : String) (obs : List String) (fault : Option St
       | some (_, n) =>
         -- after a takeover the node object of OTHER sessions has been renamed too (known finding takeoverNode, C05):
         -- only sessions untouched by that, or taken over themselves, are judged
-        if !ps.hadTakeover || ps.taken.contains seid then
+        if ps.taken.contains seid then
           let want : Option Nat := if n.startsWith "4:p" then (n.drop 3).toString.toNat? else (ps.assocPeer.find? (·.1 == n)).map (·.2)
           match want with
           | none => pure ()
